@@ -113,10 +113,11 @@ class SMat:
 class SList:
     """list of symbolic length: elements of descriptor type `t`, length term `n`,
     one z3 array Int->sort per flattened component of t"""
-    __slots__ = ("t", "n", "comps")
+    __slots__ = ("t", "n", "comps", "items")
 
-    def __init__(self, t, n, comps):
+    def __init__(self, t, n, comps, items=None):
         self.t, self.n, self.comps = t, n, list(comps)
+        self.items = items          # python list of the elements when the list was built from a concrete-length literal
 
     def __repr__(self):
         return f"SList<{self.t}>(n={self.n})"
@@ -520,7 +521,7 @@ class TOpt(T):
         return [z3.BoolSort()] + self.t.sorts()
 
     def flat(self, v):
-        if v is None:
+        if v is None or type(v).__name__ == "Undef":
             return [z3.BoolVal(True)] + [z3.FreshConst(s, "junk") for s in self.t.sorts()]
         if isinstance(v, Opt):
             return [B(v.none)] + self.t.flat(v.val)
@@ -575,7 +576,7 @@ def to_slist(v, t):
         out = SList(t, z3.IntVal(0), comps)
         for e in v:
             out = slist_append(out, e)
-        return SList(t, z3.IntVal(len(v)), out.comps)
+        return SList(t, z3.IntVal(len(v)), out.comps, items=list(v))
     raise Unsupported(f"expected list, got {v!r}")
 
 
